@@ -156,6 +156,59 @@ def judge(out, sites, cases, found, tag=""):
             {"case": c, "src": src, "macro": sites[rec["cs"]]["macro"], "observed": {k: rec[k] for k in ("evals", "calls", "notes")}})
 
 
+LEVELS_WS = VERIF / "harness-levels"
+
+
+def probe_builds(cases, name):
+    """builds the level probe once per configuration (profile x feature set) from /repo's tree and runs it"""
+    import os
+    import shutil
+    if not (LEVELS_WS / "Cargo.lock").exists():
+        shutil.copy("/repo/Cargo.lock", LEVELS_WS / "Cargo.lock")
+    env = dict(os.environ, CARGO_NET_OFFLINE="true")
+    lines = []
+    for c in cases:
+        cmd = ["cargo", "build", "--offline", "--quiet"] + (["--release"] if c["release"] else [])
+        if c["features"]:
+            cmd += ["--features", ",".join(c["features"])]
+        p = subprocess.run(cmd, cwd=LEVELS_WS, env=env, capture_output=True, text=True, timeout=900)
+        if p.returncode != 0:
+            vlib.log(p.stderr[-4000:])
+            raise vlib.ToolError("cargo build of the level probe failed for %s" % (c,))
+        exe = VERIF / "harness/target-levels" / ("release" if c["release"] else "debug") / "levelprobe"
+        r = subprocess.run([str(exe)], capture_output=True, text=True, timeout=60)
+        try:
+            o = json.loads(r.stdout)
+        except ValueError:
+            o = {"static_max": -1, "release": c["release"], "levels": [], "crash": (r.stdout + r.stderr)[-300:]}
+        lines.append({"features": c["features"], "release": c["release"], "out": o})
+    w = vlib.workdir(name)
+    vlib.write_ndjson(w / "trace.ndjson", lines)
+    t = vlib.require_ok(vlib.tlc(D, "StaticLevelTrace", env={"TRACE": w / "trace.ndjson"}, workers=1, dfs=True), "StaticLevelTrace")
+    bad = t.tagged("BAD")
+    if len(bad) != 1:
+        raise vlib.ToolError("StaticLevelTrace did not report")
+    return lines, bad[0]
+
+
+def static_levels(out, tier):
+    """the compile-time stage for every one of the twelve max-level features (thorough: every pair), in both profiles"""
+    quick = tier == "quick"
+    w = vlib.workdir("c10l")
+    r = vlib.require_ok(vlib.tlc(D, "MCStaticLevel", cfg="MCStaticLevel" if quick else "MCStaticLevelT", env={"CASES_OUT": w / "cases.ndjson"}, workers=2),
+                        "StaticLevel: the feature ladder implements the documented cap")
+    out.add_tlc(r, "MCStaticLevel exhaustive: every set of <= %d of the 12 max_level features x {debug, release}: ladder (M) = documented cap (A); case list exported" % (1 if quick else 2))
+    cases = vlib.read_ndjson(w / "cases.ndjson")
+    if len(cases) != r.distinct:
+        raise vlib.ToolError("case export incomplete: %d != %d" % (len(cases), r.distinct))
+    lines, bad = probe_builds(cases, "c10l")
+    for i in bad:
+        row = lines[i - 1]
+        out.violation("build with features %s (%s profile): STATIC_MAX_LEVEL / macro behaviour differ from StaticLevel: %s" % (
+            row["features"], "release" if row["release"] else "debug", json.dumps(row["out"])[:400]), {"levels_case": {"features": row["features"], "release": row["release"]}, "observed": row["out"]})
+    return len(cases)
+
+
 def regen():
     r = subprocess.run([sys.executable, str(VERIF / "tools/gen_macro_corpus.py")], capture_output=True, text=True)
     if r.returncode != 0:
@@ -182,6 +235,8 @@ def run(out, tier):
     if not all(x.get("static_max") == 3 for x in slines if x.get("ev") == "run"):
         raise vlib.ToolError("the static build does not report STATIC_MAX_LEVEL = INFO")
     judge(out, sites, scases, sfound, " [build with max_level_info]")
+    nbuilds = static_levels(out, tier)
+    out.extra["static_level_builds"] = nbuilds
     cases = cases + scases
     live = [s for s in sites if not s["skipped"]]
     out.traces = len(cases)
@@ -197,12 +252,19 @@ def run(out, tier):
     out.samples = [live[0]["src"], live[100]["src"], live[len(live) // 2]["src"], cases[0]["slots"][:2]]
     out.assumptions = ["built without tracing's `log` feature (with it disabled callsites evaluate fields for `log`; see C18)",
                        "expected Display/Debug texts of sigil fields come from a restricted alphabet whose Rust formatting is known; typed fields use arbitrary values",
-                       "of the compile-time caps only max_level_info is exercised (second build of the same corpus)"]
+                       "the whole corpus runs under one compile-time cap (max_level_info, second build); every other cap - each of the twelve features in both "
+                       "profiles, thorough: every pair - is exercised by a probe (event!, span!, shorthands, enabled! at each level) built once per configuration"]
 
 
 def replay(out, path):
     d = json.load(open(path))["replay"]
     sites = json.load(open(CORPUS))
+    if "levels_case" in d:
+        lines, bad = probe_builds([d["levels_case"]], "c10l_replay")
+        print(json.dumps(lines[0]))
+        if bad:
+            out.violation("build with features %s: differs from StaticLevel" % (d["levels_case"],), d)
+        return
     c = d["case"]
     lines, found, _ = execute([c], "c10_replay", nchunks=1)
     for x in lines:
